@@ -156,12 +156,9 @@ struct SeqHarness : HarnessBase {
 	}
 	void canon(std::string &out) {
 		world_canon(out);
-		for(int a = 0; a < 2; a++) {
-			out.push_back((char)ref[a].size());
-			for(int x : ref[a]) out.push_back((char)x);
-			out.push_back((char)capproxy(a));
-			out.push_back('|');
-		}
+		GraphCanon g; for(int a = 0; a < 2; a++) if(alive[a]) g.root(store[a], sizeof(V));
+		g.emit(out);
+		for(int a = 0; a < 2; a++) { out.push_back((char)ref[a].size()); for(int x : ref[a]) out.push_back((char)x); out.push_back('|'); }
 	}
 };
 
@@ -230,7 +227,9 @@ struct DynHarness : HarnessBase {
 	}
 	void canon(std::string &out) {
 		world_canon(out);
-		for(int a = 0; a < 2; a++) { out.push_back((char)ref[a].size()); for(int x : ref[a]) out.push_back((char)x); out.push_back((char)(heap().size_of(s(a).data()) == (size_t)-1 ? 0 : 1)); out.push_back('|'); }
+		GraphCanon g; for(int a = 0; a < 2; a++) if(alive[a]) g.root(store[a], sizeof(V));
+		g.emit(out);
+		for(int a = 0; a < 2; a++) { out.push_back((char)ref[a].size()); for(int x : ref[a]) out.push_back((char)x); out.push_back('|'); }
 	}
 };
 
@@ -265,7 +264,7 @@ struct StackHarness : HarnessBase {
 		if(res) res->outcomes.insert("size=" + std::to_string(ref.size()));
 	}
 	void final_check() { if(alive) { s().~V(); alive = false; } raise_pending(); world_check_empty("stack"); }
-	void canon(std::string &out) { world_canon(out); out.push_back((char)ref.size()); for(int x : ref) out.push_back((char)x); }
+	void canon(std::string &out) { world_canon(out); GraphCanon g; if(alive) g.root(store, sizeof(V)); g.emit(out); out.push_back((char)ref.size()); for(int x : ref) out.push_back((char)x); }
 };
 
 template<class E>
@@ -309,7 +308,7 @@ struct ListHarness : HarnessBase {
 		raise_pending();
 		world_check_empty("list(destroyed non-empty)");
 	}
-	void canon(std::string &out) { world_canon(out); out.push_back((char)ref.size()); for(int x : ref) out.push_back((char)x); }
+	void canon(std::string &out) { world_canon(out); GraphCanon g; if(alive) g.root(store, sizeof(V)); g.emit(out); out.push_back((char)ref.size()); for(int x : ref) out.push_back((char)x); }
 };
 
 template<class H, class... Args>
